@@ -165,6 +165,17 @@ def _ab_index(ctx):
     return _STATE['ab_index']
 
 
+def _ident(instance):
+    """Identity of an instance independent of forml's own equality: the textual project-release-generation path plus the
+    registry object it is bound to."""
+    gen = instance._generation  # pylint: disable=protected-access
+    return repr(gen), id(gen.registry)
+
+
+def _same(left, right) -> bool:
+    return _ident(left) == _ident(right)
+
+
 def _describe(instance) -> str:
     try:
         return str(instance)
@@ -645,7 +656,7 @@ def check_latest(ctx, spec):
                     return
                 want = asset.Instance(LPROJECT, VERSIONS[exp[0]], exp[1], directories[r])
                 try:
-                    same = got == want
+                    same = _same(got, want)
                 except Exception as exc:
                     ctx.fail_exc(spec, 'latest-select', exc, [mode])
                     return
@@ -654,7 +665,7 @@ def check_latest(ctx, spec):
                     tags = [mode]
                     text = _describe(got)
                     now = asset.Instance(LPROJECT, VERSIONS[newest[0]], newest[1], directories[r]) if newest else None
-                    if now is not None and got == now:
+                    if now is not None and _same(got, now):
                         how = 'fresher-than-cached'  # resolved to what the registry holds now although no refresh ran
                     else:
                         how = 'wrong-instance'
@@ -742,13 +753,13 @@ def check_explicit(ctx, spec):
         want = asset.Instance(spec['p'], spec['r'], spec['g'], directories[r])
         try:
             got = selector.select(directories[r], None, stats)
-            same = got == want
+            same = _same(got, want)
         except Exception as exc:
             ctx.fail_exc(spec, 'explicit-select-raises', exc)
             return
         if not same:
             other = asset.Instance(spec['p'], spec['r'], spec['g'], directories[1 - r])
-            if got == other:
+            if _same(got, other):
                 ctx.fail(
                     spec,
                     'explicit-select',
